@@ -41,10 +41,22 @@ pub struct C34Scn {
     /// machine arm: a thread panics while holding the timer's mutex at this boundary
     #[serde(default)]
     pub poison_at: Option<u32>,
+    /// ranges are handed over as a pair of bounds with an excluded start, `(Excluded(lo-1), ..)`,
+    /// which denotes the same set as `lo..`
+    #[serde(default)]
+    pub excl_start: bool,
 }
 pub struct C34;
 
+fn bounds(lo: u32, hi: u32, incl: bool) -> (std::ops::Bound<u32>, std::ops::Bound<u32>) {
+    use std::ops::Bound::*;
+    (Excluded(lo - 1), if incl { Included(hi) } else { Excluded(hi) })
+}
+
 fn mk(s: &C34Scn) -> TimerDevice {
+    if s.excl_start && s.lo >= 1 {
+        return TimerDevice::new(s.seed, bounds(s.lo, s.hi, s.incl), s.vect, s.prio);
+    }
     if s.incl {
         TimerDevice::new(s.seed, s.lo..=s.hi, s.vect, s.prio)
     } else {
@@ -176,7 +188,10 @@ fn direct(s: &C34Scn, out: &mut Outcome) -> Option<Violation> {
                 w.reopen();
             }
             TOp::SetRange(lo, hi, incl) => {
-                if *incl {
+                if s.excl_start && *lo >= 1 {
+                    t.set_range(bounds(*lo, *hi, *incl));
+                    twin.set_range(bounds(*lo, *hi, *incl));
+                } else if *incl {
                     t.set_range(*lo..=*hi);
                     twin.set_range(*lo..=*hi);
                 } else {
@@ -451,7 +466,7 @@ impl Check for C34 {
                 }
             }
         }
-        C34Scn { entropy: r.next_u64(), seed: if r.chance(1, 6) { None } else { Some(r.next_u64()) }, lo, hi, incl, vect: 0x81 + r.below(0x70) as u8, prio: if machine { 1 + r.below(7) as u8 } else { r.below(10) as u8 }, ops, machine, ext_ticks: if machine && r.chance(1, 3) { crate::c16::sorted((0..1 + r.below(6)).map(|_| 1 + r.below(400) as u32).collect()) } else { vec![] }, poison_at: if machine && r.chance(1, 4) { Some(r.below(300) as u32) } else { None } }
+        C34Scn { entropy: r.next_u64(), seed: if r.chance(1, 6) { None } else { Some(r.next_u64()) }, lo, hi, incl, vect: 0x81 + r.below(0x70) as u8, prio: if machine { 1 + r.below(7) as u8 } else { r.below(10) as u8 }, ops, machine, ext_ticks: if machine && r.chance(1, 3) { crate::c16::sorted((0..1 + r.below(6)).map(|_| 1 + r.below(400) as u32).collect()) } else { vec![] }, poison_at: if machine && r.chance(1, 4) { Some(r.below(300) as u32) } else { None }, excl_start: !machine && r.chance(1, 4) }
     }
     fn execute(&self, s: &C34Scn) -> Outcome {
         let mut out = Outcome::default();
